@@ -320,8 +320,18 @@ func (e *FnEnc) appendBuiltin(v ssa.Value, c *ssa.CallCommon, args []Val) {
 		}
 		srcLen = fmt.Sprint(n)
 	} else {
-		src := e.define("arr", "(Array Int "+es+")", srcArr)
+		src := e.declareEq("arr", "(Array Int "+es+")", srcArr)
 		na = e.declare("arr", "(Array Int "+es+")")
+		// when the first operand is a slice literal of known length, state the copied prefix element by element
+		if sl, ok := c.Args[0].(*ssa.Slice); ok && sl.Low == nil && sl.High == nil {
+			if al, ok := sl.X.(*ssa.Alloc); ok {
+				if at, ok := al.Type().Underlying().(*types.Pointer).Elem().Underlying().(*types.Array); ok && at.Len() <= 16 {
+					for k := int64(0); k < at.Len(); k++ {
+						e.assume(sx("=", sx("select", na, fmt.Sprint(k)), sx("select", base, fmt.Sprint(k))))
+					}
+				}
+			}
+		}
 		e.emit(fmt.Sprintf("(assert (forall ((i!q Int)) (! (=> (and (<= 0 i!q) (< i!q (slen %s))) (= (select %s i!q) (select %s i!q))) :pattern ((select %s i!q)))))", x.T, na, base, na))
 		e.emit(fmt.Sprintf("(assert (forall ((i!q Int)) (! (=> (and (<= 0 i!q) (< i!q %s)) (= (select %s (+ (slen %s) i!q)) (select %s i!q))) :pattern ((select %s i!q)))))", srcLen, na, x.T, src, src))
 	}
@@ -358,9 +368,11 @@ func (e *FnEnc) havocAll(why string) {
 }
 
 func (e *FnEnc) havocCall(v ssa.Value, name string, args []Val, in ssa.Instruction) {
-	e.note("havoc: " + name)
 	if !e.W.NoHeapEffect(name) {
+		e.note("havoc (unknown callee: result and all escaped heap cells unconstrained): " + name)
 		e.havocAll(name)
+	} else {
+		e.note("A6 library call assumed not to modify existing objects (result unconstrained): " + name)
 	}
 	if v != nil {
 		e.havocVal(v)
@@ -554,7 +566,7 @@ func (e *FnEnc) sortModel(name string, c *ssa.CallCommon, args []Val, in ssa.Ins
 	es := s.SortOf(sliceTy.Elem())
 	ref, n := sx("sref", slice.T), sx("slen", slice.T)
 	oldH := e.heap(h)
-	oldArr := e.define("sort.old", "(Array Int "+es+")", sx("select", oldH, ref))
+	oldArr := e.declareEq("sort.old", "(Array Int "+es+")", sx("select", oldH, ref))
 	newArr := e.declare("sort.new", "(Array Int "+es+")")
 	pi := e.declare("sort.pi", "(Array Int Int)")
 	pinv := e.declare("sort.pinv", "(Array Int Int)")
@@ -562,8 +574,12 @@ func (e *FnEnc) sortModel(name string, c *ssa.CallCommon, args []Val, in ssa.Ins
 	inr := func(x string) string { return and(sx("<=", "0", x), sx("<", x, n)) }
 	e.assume(fmt.Sprintf("(forall ((i!s Int)) (! (=> %s (and %s (= (select %s i!s) (select %s (select %s i!s))) (= (select %s (select %s i!s)) i!s))) :pattern ((select %s i!s))))",
 		inr("i!s"), inr(sx("select", pi, "i!s")), newArr, oldArr, pi, pinv, pi, newArr))
-	e.assume(fmt.Sprintf("(forall ((j!s Int)) (! (=> %s (and %s (= (select %s (select %s j!s)) j!s))) :pattern ((select %s j!s))))",
-		inr("j!s"), inr(sx("select", pinv, "j!s")), pi, pinv, oldArr))
+	e.assume(fmt.Sprintf("(forall ((j!s Int)) (! (=> %s (and %s (= (select %s (select %s j!s)) j!s) (= (select %s (select %s j!s)) (select %s j!s)))) :pattern ((select %s j!s)) :pattern ((select %s j!s))))",
+		inr("j!s"), inr(sx("select", pinv, "j!s")), pi, pinv, newArr, pinv, oldArr, oldArr, pinv))
+	// a function may name the inverse permutation of its (last) sort through a ghost variable called sortinv
+	if hv, ok := e.ghosts["sortinv"]; ok && hv.Sort == "(Array Int Int)" {
+		e.setHeap(hv, pinv)
+	}
 	e.note("A7 trusted contract: " + name + " (result is a permutation of the input, ordered by the comparator; requires a strict weak order)")
 	if name == "sort.Strings" {
 		e.assume(fmt.Sprintf("(forall ((i!s Int) (j!s Int)) (=> (and (<= 0 i!s) (< i!s j!s) (< j!s %s)) (str.<= (select %s i!s) (select %s j!s))))", n, newArr, newArr))
